@@ -1468,6 +1468,35 @@ theorem remove_default_eq_filter (p : Pred) (xs : List Val) :
   have := key 0 xs (by omega)
   simpa [vRemove, maskOf] using this
 
+/-- `(revappend x y)` = `(append (reverse x) y)` -/
+theorem revappend_eq_append_reverse (x y : Ref) (xs ys : List Val) :
+    valueOf (.revappend x y) xs ys = valueOf (.append x y) xs.reverse ys := rfl
+
+theorem revappend_nil_eq_reverse (x y : Ref) (xs : List Val) :
+    valueOf (.revappend x y) xs [] = valueOf (.reverse x) xs [] := by simp [valueOf]
+
+/-- a copy (copy-seq, copy-tree on a flat list, `(apply #'list x)`, `(multiple-value-list (values-list x))`) has the
+    value of its argument -/
+theorem fresh_copy_value (x : Ref) (xs : List Val) : valueOf (.fresh1 .copy x) xs [] = .ok xs := rfl
+
+theorem interleave_length : ∀ (xs ys : List Val), (interleave xs ys).length = 2 * min xs.length ys.length
+  | [], _ => by simp [interleave]
+  | _ :: _, [] => by simp [interleave]
+  | x :: xs, y :: ys => by
+    simp only [interleave, List.length_cons, interleave_length xs ys]
+    omega
+
+/-- what a two-list map hands to its function at the first step is the pair of the first elements, exactly
+    when both lists are non-empty -/
+theorem firstPair_spec (xs ys : List Val) :
+    Fn2.app .firstPair xs ys = match xs.head?, ys.head? with
+      | some a, some b => [a, b]
+      | _, _ => [] := by
+  cases xs <;> cases ys <;> simp [Fn2.app]
+
+theorem takeMin_length (xs ys : List Val) : (Fn2.app .takeMin xs ys).length = min xs.length ys.length := by
+  simp [Fn2.app, List.length_take]
+
 theorem mapcar_length (f : Fn) (xs : List Val) : (vMapcar f xs).length = xs.length := by simp [vMapcar]
 
 /-- `sort` returns an ordered permutation of its argument -/
